@@ -390,6 +390,11 @@ def check_connection(cn: Dict[str, Any], mine: List[Any], tables: List[Dict[str,
             continue
         pr = h11_parse_requests(orx)
         want = [exp['marks']] + [fe['marks'] for fe in cn['fexp'] if fe['forward']]
+        want_paths = [b'/r0'] + [b'/r%d' % (j + 1) for j, fe in enumerate(cn['fexp']) if fe['forward']]
+        got_paths = [r['target'] for r in pr['requests']]
+        if not pr['error'] and len(got_paths) == len(want_paths) and got_paths != want_paths:
+            return ('wrong_forwarding', 'paths', 'origin received requests for %r, the client sent (and the plugins let through) %r'
+                    % (got_paths, want_paths))
         if pr['error'] or len(pr['requests']) != len(want):
             return ('wrong_forwarding', stage, 'origin got %d requests, expected %d (h11: %s): %r'
                     % (len(pr['requests']), len(want), pr['error'], orx[:200]))
